@@ -551,18 +551,28 @@ func (v *PacketDslVisitorImpl) VisitMatchFieldDeclaration(ctx *gen.MatchFieldDec
 	}
 }
 
+// decimalKey drops the leading zeros of an integer match key: the key is a decimal number, and the target
+// languages read a literal with a leading zero as octal (Go, Java, C++) or reject it (Python)
+func decimalKey(digits string) string {
+	trimmed := strings.TrimLeft(digits, "0")
+	if trimmed == "" {
+		return "0"
+	}
+	return trimmed
+}
+
 // VisitMatchPair handles an individual match key-value: (DIGITS|STRING|list) ':' IDENTIFIER
 func (v *PacketDslVisitorImpl) VisitMatchPair(ctx *gen.MatchPairContext) interface{} {
 	var pairs []model.MatchPair
 	val := ctx.IDENTIFIER().GetText()
 	var key string
 	if ctx.DIGITS() != nil {
-		key = ctx.DIGITS().GetText()
+		key = decimalKey(ctx.DIGITS().GetText())
 	} else if ctx.STRING() != nil {
 		key = ctx.STRING().GetText()
 	} else if ctx.List() != nil {
 		for _, k := range ctx.List().AllDIGITS() {
-			pairs = append(pairs, model.MatchPair{Key: k.GetText(), Value: val, Line: k.GetSymbol().GetLine(), Column: k.GetSymbol().GetTokenSource().GetCharPositionInLine()})
+			pairs = append(pairs, model.MatchPair{Key: decimalKey(k.GetText()), Value: val, Line: k.GetSymbol().GetLine(), Column: k.GetSymbol().GetTokenSource().GetCharPositionInLine()})
 		}
 		for _, k := range ctx.List().AllSTRING() {
 			pairs = append(pairs, model.MatchPair{Key: k.GetText(), Value: val, Line: k.GetSymbol().GetLine(), Column: k.GetSymbol().GetTokenSource().GetCharPositionInLine()})
